@@ -7,6 +7,7 @@ rnd = os.environ.get("ROUND", "")
 # WT / NAME / PROP / CONFIRM override the defaults (round 5 was organised by source file, not by property)
 wt = os.environ.get("WT", f"/tmp/wt{rnd}-{pid}"); dst = "/verif/seeded/" + os.environ.get("NAME", f"{pid}" + (f"-{rnd}" if rnd else ""))
 prop = os.environ.get("PROP", pid)
+assert not os.path.exists(dst + "/meta.json") or os.environ.get("OVERWRITE"), f"{dst} already holds a saved change: pick another NAME (or set OVERWRITE=1)"
 os.makedirs(dst, exist_ok=True)
 shutil.copy(f"{wt}/patch.diff", f"{dst}/patch.diff")
 import glob
